@@ -266,6 +266,79 @@ def t05_order(run, fx):
                  "[1, 0] applies lookup 1 before lookup 0", "%s:%s" % (b.file, b.line))
 
 
+def t05_vsz(run, fx):
+    """the size of a value record counts the eight fields that the reader consumes"""
+    rule = "T05-VSZ"
+    run.rule(rule, "ValueFormat::size is two bytes for each of the eight value-format bits 0..=7 that ValueRecord::read_dep consumes (sibling agreement: the "
+                   "size positions the following records of a PairPos / SinglePos array): the bits counted are those of a range 0..8 (0..=7) handed to "
+                   "ith_bit_set, or count_ones of the format masked with 0x00FF")
+    b = fx.body("layout::ValueFormat::size")
+    if b is None:
+        return run.anchor_missing(rule, "layout::ValueFormat::size")
+    bodies = [b] + [c for c in fx.bodies if c.kind == "Closure" and c.root == b.root and c is not b]
+    ranges, masks, popcount = [], [], False
+    for c in bodies:
+        prov = sym.Prov(c)
+        for bi in range(len(c.blocks)):
+            if not c.reachable(bi):
+                continue
+            for st in c.stmts(bi):
+                if st["k"] != "assign":
+                    continue
+                v = sym.strip(prov.rvalue(st["rv"]))
+                if v[0] == "agg" and str(v[1]).endswith("ops::Range") and len(v[3]) == 2 and all(sym.strip(x)[0] == "c" for x in v[3]):
+                    ranges.append((sym.strip(v[3][0])[1], sym.strip(v[3][1])[1] - 1))
+                if v[0] == "bin" and v[1] == "BitAnd":
+                    for x in (v[2], v[3]):
+                        x = sym.strip(x)
+                        if x[0] == "c" and isinstance(x[1], int):
+                            masks.append(x[1])
+            t = c.term(bi)
+            if t["k"] == "call":
+                p = t["callee"].get("path") or ""
+                if p.endswith("::count_ones"):
+                    popcount = True
+                if p.endswith("RangeInclusive::<Idx>::new") and len(t["args"]) == 2:
+                    a = [sym.strip(prov.op(x)) for x in t["args"]]
+                    if all(x[0] == "c" for x in a):
+                        ranges.append((a[0][1], a[1][1]))
+                # promoted `0..=7`
+                for x in t["args"]:
+                    rb = guards_range(prov.op(x))
+                    if rb:
+                        ranges.append(rb)
+    ranges = sorted(set(ranges))
+    if ranges:
+        if ranges == [(0, 7)]:
+            run.ok(rule, "bits 0..=7 are counted")
+        else:
+            run.fail(rule, "value-record-size", "ValueFormat::size counts the bits %s, the reader consumes a field for each of the bits 0..=7: the records that follow one "
+                     "with an uncounted field are read from the wrong offset" % ", ".join("%s..=%s" % r for r in ranges), "%s:%s" % (b.file, b.line))
+    elif popcount:
+        if masks and all(m & 0xFF == 0xFF for m in masks):
+            run.ok(rule, "count_ones of the format masked with %s" % ", ".join(hex(m) for m in masks))
+        elif not masks:
+            run.notes.append("%s: count_ones without a mask: reserved bits would be counted (not reported: the reader rejects nothing there)" % rule)
+            run.ok(rule, "count_ones of the format")
+        else:
+            run.fail(rule, "value-record-size", "ValueFormat::size counts the bits of the format masked with %s, which leaves out some of the bits 0..=7"
+                     % ", ".join(hex(m) for m in masks), "%s:%s" % (b.file, b.line))
+    else:
+        run.anchor_missing(rule, "the bits counted by ValueFormat::size")
+
+
+def guards_range(term):
+    import guards
+    rb = guards.range_bounds(term)
+    if rb is None:
+        return None
+    lo, hi, incl = rb
+    lo, hi = sym.strip(lo), sym.strip(hi)
+    if lo[0] == "c" and hi[0] == "c" and isinstance(lo[1], int) and isinstance(hi[1], int):
+        return (lo[1], hi[1] if incl else hi[1] - 1)
+    return None
+
+
 def check(run, fx, tier, floors=True):
     import speclayout
     speclayout.rule_layouts(run, fx, "T05-LAYOUT", ["layout", "kern"], floors)
@@ -287,5 +360,7 @@ def check(run, fx, tier, floors=True):
         rules_C04.t04_marks(run, fx)
     if floors or fx.body("layout::ClassDef::glyph_class_value") is not None:
         rules_C04.t04_cls0(run, fx, floors)
+    if floors or fx.body("layout::ValueFormat::size") is not None:
+        t05_vsz(run, fx)
     if floors or any(b.root.endswith("::glyph_positions") for b in fx.bodies):
         t05_ord(run, fx)
